@@ -672,8 +672,10 @@ def window_of(name):
             "bartlett": filters.BartlettWindow, "blackman": filters.BlackmanWindow}[name]()
 
 
-def lib_signal(sig_seed, N, dt, silent_tail=False, loud=False):
+def lib_signal(sig_seed, N, dt, silent_tail=False, loud=False, scale=None):
     x = np.random.RandomState(sig_seed).randn(N)
+    if scale is not None:
+        x = x * scale   # finite signals of huge / tiny magnitude (float64 only)
     if silent_tail:
         x[(2 * N) // 5:] = 0.0
     if loud and N:
@@ -697,7 +699,7 @@ def library_case_run(case):
         # `replay`, evaluates the oracle while the value is still in force and the process then ends)
         from pydrobert.speech import config
         config.LOG_FLOOR_VALUE = case["log_floor_after_ctor"]
-    x = lib_signal(case["sig_seed"], case["N"], case["dtype"], case.get("silent_tail", False), case.get("loud", False))
+    x = lib_signal(case["sig_seed"], case["N"], case["dtype"], case.get("silent_tail", False), case.get("loud", False), case.get("scale"))
     x.setflags(write=False)
     full = comp.compute_full(x)
     parts, off = [], 0
@@ -741,6 +743,12 @@ def library_oracle_(ctx, n, config, floor0):
         dt = r.choice([64, 64, 32, 16])
         # a fixed share of the cases: clicks in a narrow float type, energy + power + log (fixed in every parameter)
         loud = done % 4 == 3
+        # another fixed share: finite float64 signals of huge / tiny magnitude, magnitude (not power) coefficients - the modulus
+        # must not be computed through re**2 + im**2
+        scale = {5: 1e160, 6: 1e-170}.get(done % 8)
+        if scale is not None:
+            dt = 64
+            flags = dict(include_energy=done % 16 >= 8, use_log=scale > 1, use_power=False, pad_to_nearest_power_of_two=done % 3 == 0)
         if loud:
             dt = 16 if done % 8 == 3 else 32
             flags = dict(include_energy=True, use_log=True, use_power=True, pad_to_nearest_power_of_two=done % 16 >= 8)
@@ -776,10 +784,12 @@ def library_oracle_(ctx, n, config, floor0):
         silent_tail = done % 4 == 2
         if loud:
             N = 3 * D + 7   # several DFT blocks inside one chunk
-        x = lib_signal(sig_seed, N, dt, silent_tail, loud)
+        x = lib_signal(sig_seed, N, dt, silent_tail, loud, scale)
         x.setflags(write=False)
         chunks = random_chunking(r, N)
-        case.update(N=N, chunks=chunks, L=L, S=S, D=D, sig_seed=sig_seed, silent_tail=silent_tail, loud=loud)
+        case.update(N=N, chunks=chunks, L=L, S=S, D=D, sig_seed=sig_seed, silent_tail=silent_tail, loud=loud, scale=scale)
+        if scale is not None:
+            ctx.count("scaled_signal:%g" % scale)
         if loud:
             ctx.count("loud_clicks:f%d" % dt)
         ctx.case(case, kind="lib:%s:%s:f%d" % (kind, style, dt))
